@@ -25,6 +25,16 @@
 //! are treated differently is an extraction failure), and the class of each
 //! `IrType` (from the `match ir_ty` of `call_eq_of`, src/lir/lower/eq.rs).
 //!
+//! `layoutlisteq` → `Generated/LayoutListEq.lean`: the runtime side of `==`
+//! on lists (src/value/list.rs) — `impl PartialEq for ErasedList` (behind
+//! `==` / `!=` on Roto lists), `RawList::contains`, `RawList::index`,
+//! `RawList::get` and `RawList::offset_of` — statement by statement as a list
+//! of the steps of `RotoV.Layout.ListStep` (Model/LayoutListStd.lean): the
+//! `Arc::ptr_eq` shortcut, taking both locks, the length test, the loop that
+//! hands every pair of element ADDRESSES to the element type's `eq_fn`, the
+//! final value. Any other statement (for instance a shortcut that compares the
+//! element buffers as bytes) is outside the subset: extraction failure.
+//!
 //! `usize` is rendered as `Nat` (no wrap-around: layouts of real types are far
 //! below 2^64; stated as an assumption of C02). A `&mut self` method returns
 //! the pair `(self', result)`. Std methods get their meaning once, in
@@ -40,6 +50,7 @@ pub const TARGETS: &[Target] = &[
     ("layout", "LayoutGen", layout as Gen),
     ("layoutloops", "LayoutLoops", layoutloops as Gen),
     ("layoutdecide", "LayoutDecide", layoutdecide as Gen),
+    ("layoutlisteq", "LayoutListEq", layoutlisteq as Gen),
 ];
 
 type R = Result<String, String>;
@@ -1064,4 +1075,374 @@ fn layoutdecide(repo: &Path) -> R {
     }
     s += "end RotoV.Gen.LayoutDecide\n";
     Ok(s)
+}
+
+// ───────────────────────── layoutlisteq ─────────────────────────
+
+fn is_hook_attr(a: &syn::Attribute) -> bool {
+    a.path().is_ident("cfg") && norm(&a.meta).contains("feature=\"verif-hooks\"")
+}
+
+/// the statements of a block without the cfg-guarded verification hooks
+/// (they do not exist in a normal build)
+fn real_stmts(stmts: &[syn::Stmt]) -> Vec<&syn::Stmt> {
+    use syn::{Expr as E, Stmt};
+    stmts
+        .iter()
+        .filter(|s| {
+            let attrs: &[syn::Attribute] = match s {
+                Stmt::Local(l) => &l.attrs,
+                Stmt::Macro(m) => &m.attrs,
+                Stmt::Expr(e, _) => match e {
+                    E::Call(c) => &c.attrs,
+                    E::MethodCall(c) => &c.attrs,
+                    E::Block(b) => &b.attrs,
+                    E::Macro(m) => &m.attrs,
+                    E::Unsafe(u) => &u.attrs,
+                    E::If(i) => &i.attrs,
+                    _ => &[],
+                },
+                Stmt::Item(_) => &[],
+            };
+            !attrs.iter().any(is_hook_attr)
+        })
+        .collect()
+}
+
+/// `if <cond> { return <val>; }` (no else) → (cond, val), both normalised
+fn if_return(st: &syn::Stmt) -> Option<(String, String)> {
+    let syn::Stmt::Expr(syn::Expr::If(i), _) = st else { return None };
+    if i.else_branch.is_some() || i.then_branch.stmts.len() != 1 {
+        return None;
+    }
+    let syn::Stmt::Expr(syn::Expr::Return(r), _) = &i.then_branch.stmts[0] else { return None };
+    Some((norm(&i.cond), r.expr.as_ref().map(|e| norm(e)).unwrap_or_default()))
+}
+
+/// `for i in 0..<recv>.len() { let e1 = <recv>.get(i).unwrap(); [let e2 =
+/// <other>.get(i).unwrap();] let is_eq = unsafe { (<recv>.vtable.eq_fn)(e1.as_ptr(),
+/// <e2|item>.as_ptr()) }; if [!]is_eq { return <val>; } }`
+/// → (second operand: Some(other list) | None = the item, exit when is_eq = .., returned value)
+fn eq_loop(st: &syn::Stmt, recv: &str) -> Result<(Option<String>, bool, String), String> {
+    let syn::Stmt::Expr(syn::Expr::ForLoop(f), _) = st else {
+        return Err(format!("expected the element loop, found `{}`", norm(st)));
+    };
+    let i = norm(&f.pat);
+    if norm(&f.expr) != format!("0..{recv}.len()") {
+        return Err(format!("the element loop runs over `{}`, not over 0..{recv}.len()", norm(&f.expr)));
+    }
+    let body: Vec<String> = real_stmts(&f.body.stmts).iter().map(|s| norm(*s)).collect();
+    let get = |l: &str| format!("={l}.get({i}).unwrap();");
+    let (second, rest) = match body.as_slice() {
+        [a, b, rest @ ..] if a.starts_with("let") && a.ends_with(&get(recv)) && b.starts_with("let") && b.contains(".get(") => {
+            let other = b.split_once('=').map(|x| x.1).and_then(|r| r.strip_suffix(&format!(".get({i}).unwrap();"))).map(|s| s.to_string());
+            let Some(other) = other else { return Err(format!("second element is `{b}`")) };
+            let (e1, e2) = (a[3..].split('=').next().unwrap_or("").to_string(), b[3..].split('=').next().unwrap_or("").to_string());
+            (Some((other, e1, e2)), rest)
+        }
+        [a, rest @ ..] if a.starts_with("let") && a.ends_with(&get(recv)) => {
+            let e1 = a[3..].split('=').next().unwrap_or("").to_string();
+            (Some((String::new(), e1, "item".to_string())), rest)
+        }
+        _ => return Err(format!("the element loop does not start by taking the element address: {body:?}")),
+    };
+    let (other, e1, e2) = second.unwrap();
+    let [call, test] = rest else {
+        return Err(format!("the element loop has other statements than the eq_fn call and its test: {rest:?}"));
+    };
+    let want = format!("letis_eq=unsafe{{({recv}.vtable.eq_fn)({e1}.as_ptr(),{e2}.as_ptr())}};");
+    if *call != want {
+        return Err(format!("the elements are not compared by the element type's eq_fn on their addresses: `{call}` (expected `{want}`)"));
+    }
+    let (when, val) = if let Some(v) = test.strip_prefix("if!is_eq{return").and_then(|r| r.strip_suffix(";}")) {
+        (false, v.to_string())
+    } else if let Some(v) = test.strip_prefix("ifis_eq{return").and_then(|r| r.strip_suffix(";}")) {
+        (true, v.to_string())
+    } else {
+        return Err(format!("unsupported test of the comparison result `{test}`"));
+    };
+    Ok((if other.is_empty() { None } else { Some(other) }, when, val))
+}
+
+fn layoutlisteq(repo: &Path) -> R {
+    const SRC: &str = "src/value/list.rs";
+    let file = find::parse(repo, SRC)?;
+    let mut s = String::from(
+        "/- GENERATED by /verif/extract from src/value/list.rs — do not edit. -/\nimport RotoV.Model.LayoutListStd\nnamespace RotoV.Gen.LayoutListEq\nopen RotoV.Layout\n\n",
+    );
+    let bool_of = |v: &str, who: &str| -> Result<&'static str, String> {
+        match v {
+            "true" => Ok("true"),
+            "false" => Ok("false"),
+            o => Err(format!("{who}: returns `{o}`, not a boolean constant")),
+        }
+    };
+    // ---- RawList::offset_of, RawList::get
+    {
+        let f = find::func(&file, "offset_of", Some("RawList"))?;
+        let st = real_stmts(&f.block.stmts);
+        let n = match f.sig.inputs.iter().nth(1) {
+            Some(syn::FnArg::Typed(t)) => norm(&t.pat),
+            _ => return Err("RawList::offset_of: expected (&self, n)".into()),
+        };
+        let [syn::Stmt::Expr(syn::Expr::Binary(b), None)] = st.as_slice() else {
+            return Err(format!("RawList::offset_of: body is not one product: {:?}", st.iter().map(|s| norm(*s)).collect::<Vec<_>>()));
+        };
+        let term = |e: &syn::Expr| -> R {
+            let t = norm(e);
+            if t == "self.vtable.size()" {
+                Ok("size".into())
+            } else if t == n {
+                Ok("n".into())
+            } else {
+                Err(format!("RawList::offset_of: unsupported operand `{t}`"))
+            }
+        };
+        if !matches!(b.op, syn::BinOp::Mul(_)) {
+            return Err(format!("RawList::offset_of: unsupported operator in `{}`", norm(b)));
+        }
+        s += &format!(
+            "/-- `RawList::offset_of`: byte offset of element `n` (`size` = `self.vtable.size()`) -/\ndef offsetOf (size n : Nat) : Nat := {} * {}\n\n",
+            term(&b.left)?,
+            term(&b.right)?
+        );
+        let f = find::func(&file, "get", Some("RawList"))?;
+        let st: Vec<String> = real_stmts(&f.block.stmts).iter().map(|s| norm(*s)).collect();
+        let want = ["ifidx>=self.len{returnNone;}", "letoffset=self.offset_of(idx);", "letptr=unsafe{self.ptr.byte_add(offset)};", "Some(ptr)"];
+        if st != want {
+            return Err(format!("RawList::get: expected the bounds test, offset_of(idx), ptr.byte_add(offset) — found {st:?}"));
+        }
+        s += "/-- `RawList::get`: `None` when `idx >= self.len`, else the address `ptr + offset_of(idx)` -/\ndef rawGet (size ptr len idx : Nat) : Option Nat :=\n  if idx ≥ len then none else some (ptr + offsetOf size idx)\n\n";
+    }
+    // ---- impl PartialEq for ErasedList
+    {
+        let f = find::func(&file, "eq", Some("PartialEq for ErasedList"))?;
+        let who = "ErasedList::eq";
+        let mut steps: Vec<String> = vec![];
+        let st = real_stmts(&f.block.stmts);
+        let mut locked = false;
+        for (k, x) in st.iter().enumerate() {
+            let n = norm(*x);
+            if let Some((c, v)) = if_return(x) {
+                if c == "Arc::ptr_eq(&self.0,&other.0)" && v == "true" && !locked {
+                    steps.push(".ptrEqReturn true".into());
+                    continue;
+                }
+                if (c == "this.len!=other.len" || c == "this.len()!=other.len()") && locked {
+                    steps.push(format!(".lenMismatchReturn {}", bool_of(&v, who)?));
+                    continue;
+                }
+                return Err(format!("{who}: statement outside the subset: `if {c} {{ return {v}; }}`"));
+            }
+            if let syn::Stmt::Local(l) = x {
+                if norm(&l.pat) == "(this,other)" && !locked {
+                    let Some(init) = &l.init else { return Err(format!("{who}: `{n}`")) };
+                    let syn::Expr::If(i) = &*init.expr else { return Err(format!("{who}: the locks are not taken in an address-ordered if/else: `{n}`")) };
+                    let Some((_, els)) = &i.else_branch else { return Err(format!("{who}: no else branch in `{n}`")) };
+                    let syn::Expr::Block(eb) = &**els else { return Err(format!("{who}: else branch of `{n}`")) };
+                    for br in [&i.then_branch, &eb.block] {
+                        let mut b: Vec<String> = real_stmts(&br.stmts).iter().map(|s| norm(*s)).collect();
+                        if b.pop().as_deref() != Some("(this,other)") {
+                            return Err(format!("{who}: a lock branch does not end in (this, other)"));
+                        }
+                        b.sort();
+                        if b != ["letother=other.0.lock().unwrap();", "letthis=self.0.lock().unwrap();"] {
+                            return Err(format!("{who}: a lock branch does more than lock self as `this` and other as `other`: {b:?}"));
+                        }
+                    }
+                    locked = true;
+                    steps.push(".lockBoth".into());
+                    continue;
+                }
+                return Err(format!("{who}: statement outside the subset: `{n}`"));
+            }
+            if matches!(x, syn::Stmt::Expr(syn::Expr::ForLoop(_), _)) && locked {
+                let (second, when, val) = eq_loop(x, "this").map_err(|e| format!("{who}: {e}"))?;
+                if second.as_deref() != Some("other") {
+                    return Err(format!("{who}: the loop does not pair the elements of `this` with those of `other`"));
+                }
+                steps.push(format!(".forEachPair {when} {}", bool_of(&val, who)?));
+                continue;
+            }
+            if k + 1 == st.len() {
+                if let syn::Stmt::Expr(e, None) = x {
+                    steps.push(format!(".ret {}", bool_of(&norm(e), who)?));
+                    continue;
+                }
+            }
+            return Err(format!("{who}: statement outside the subset (the elements of a list are compared by the element type's eq_fn only): `{}`", n.chars().take(160).collect::<String>()));
+        }
+        s += &format!(
+            "/-- `impl PartialEq for ErasedList` (`==` / `!=` on Roto lists), statement by statement -/\ndef erasedEqSteps : List ListStep := [{}]\n\n",
+            steps.join(", ")
+        );
+    }
+    // ---- RawList::contains / RawList::index
+    for (name, lean, found_true, found, missing) in [
+        ("contains", "containsSteps", "true", ".found", ".missing"),
+        ("index", "indexSteps", "Some(i)", ".foundAt", ".missingAt"),
+    ] {
+        let who = format!("RawList::{name}");
+        let f = find::func(&file, name, Some("RawList"))?;
+        let st = real_stmts(&f.block.stmts);
+        let [lp, tail] = st.as_slice() else {
+            return Err(format!("{who}: expected the element loop and the final value, found {:?}", st.iter().map(|s| norm(*s)).collect::<Vec<_>>()));
+        };
+        let (second, when, val) = eq_loop(lp, "self").map_err(|e| format!("{who}: {e}"))?;
+        if second.is_some() || !when || val != found_true {
+            return Err(format!("{who}: the loop is not `if is_eq {{ return {found_true}; }}` on (element, item)"));
+        }
+        let t = norm(*tail);
+        let want_tail = if name == "contains" { "false" } else { "None" };
+        if t != want_tail {
+            return Err(format!("{who}: final value `{t}`, expected `{want_tail}`"));
+        }
+        s += &format!(
+            "/-- `{who}`: every element address and the item's go to the element type's eq_fn; first hit returns -/\ndef {lean} : List ScanStep := [.forEachItem {found}, .ret {missing}]\n\n"
+        );
+    }
+    s += &vtable_wiring(repo)?;
+    s += "end RotoV.Gen.LayoutListEq\n";
+    Ok(s)
+}
+
+struct BranchFinder(bool);
+impl<'ast> syn::visit::Visit<'ast> for BranchFinder {
+    fn visit_expr_if(&mut self, _: &'ast syn::ExprIf) {
+        self.0 = true;
+    }
+    fn visit_expr_match(&mut self, _: &'ast syn::ExprMatch) {
+        self.0 = true;
+    }
+}
+
+/// The vtable `Lowerer::call_runtime` (src/lir/lower.rs) builds for every type
+/// parameter of a runtime function (the list methods): which value goes into
+/// which field of `struct VTable` (src/value/vtable.rs).
+fn vtable_wiring(repo: &Path) -> R {
+    use syn::visit::Visit;
+    let who = "Lowerer::call_runtime";
+    let vt = find::parse(repo, "src/value/vtable.rs")?;
+    let fields = find::struct_fields(&vt, "VTable")?;
+    let mut lean_fields = vec![];
+    for (n, _) in &fields {
+        lean_fields.push(match n.as_str() {
+            "size" => ".size",
+            "align" => ".align",
+            "clone_fn" => ".cloneFn",
+            "drop_fn" => ".dropFn",
+            "eq_fn" => ".eqFn",
+            o => return Err(format!("struct VTable: unknown field `{o}`")),
+        });
+    }
+    let file = find::parse(repo, "src/lir/lower.rs")?;
+    let f = find::func(&file, "call_runtime", Some("Lowerer"))?;
+    let lp = real_stmts(&f.block.stmts)
+        .into_iter()
+        .find_map(|st| match st {
+            syn::Stmt::Expr(syn::Expr::ForLoop(l), _) if norm(&l.expr) == "vtables.iter().enumerate()" => Some(l.clone()),
+            _ => None,
+        })
+        .ok_or(format!("{who}: no `for … in vtables.iter().enumerate()`"))?;
+    if norm(&lp.pat) != "(i,&ty_ref)" {
+        return Err(format!("{who}: the vtable loop binds `{}`", norm(&lp.pat)));
+    }
+    let mut locals: Vec<(String, syn::Expr)> = vec![];
+    let mut writes: Vec<String> = vec![];
+    let mut adds = 0usize;
+    let gen_name = |e: &syn::Expr, kind: &str| norm(e).contains(&format!("name:format!(\"::generated::{kind}_{{type_id}}\").into()"));
+    let null = "{Operand::Value(crate::lir::IrValue::Pointer(0))}";
+    for st in real_stmts(&lp.body.stmts) {
+        match st {
+            syn::Stmt::Local(l) => {
+                let name = norm(&l.pat);
+                let Some(init) = &l.init else { return Err(format!("{who}: `{}`", norm(st))) };
+                if name == "offset" {
+                    let t = norm(&init.expr);
+                    if t != "builder.add(&Layout::of::<usize>())" && t != "builder.add(&Layout::of::<*mut()>())" {
+                        return Err(format!("{who}: a vtable field is placed by `{t}`, not as one pointer-sized field"));
+                    }
+                    adds += 1;
+                }
+                locals.push((name, (*init.expr).clone()));
+            }
+            syn::Stmt::Expr(syn::Expr::MethodCall(m), _) if m.method == "emit_write" && norm(&m.receiver) == "self" => {
+                if m.args.len() != 2 || norm(&m.args[0]) != "dst" {
+                    return Err(format!("{who}: unsupported write `{}`", norm(st)));
+                }
+                if adds != writes.len() + 1 {
+                    return Err(format!("{who}: write {} does not follow its own `builder.add`", writes.len()));
+                }
+                let v = norm(&m.args[1]).replace(",)", ")");
+                let slot = if v == "Operand::Value(crate::lir::IrValue::Pointer(ty_layout.size()))" {
+                    ".layoutSize".to_string()
+                } else if v == "Operand::Value(crate::lir::IrValue::Pointer(ty_layout.align()))" {
+                    ".layoutAlign".to_string()
+                } else {
+                    let Some((_, e)) = locals.iter().rev().find(|(n, _)| *n == v) else {
+                        return Err(format!("{who}: a vtable field receives `{v}`"));
+                    };
+                    let mut slot = None;
+                    for (kind, cond, lean, lcond) in [
+                        ("clone", "self.needs_clone(ty_ref)", ".clone", ".needsClone"),
+                        ("drop", "self.needs_drop(ty_ref)", ".drop", ".needsDrop"),
+                        ("eq", "", ".eq", ""),
+                    ] {
+                        if !gen_name(e, kind) {
+                            continue;
+                        }
+                        match e {
+                            syn::Expr::If(i) if !cond.is_empty() => {
+                                let els = i.else_branch.as_ref().map(|x| norm(&x.1)).unwrap_or_default();
+                                if norm(&i.cond) != cond || els != null {
+                                    return Err(format!("{who}: `{v}` is not `if {cond} {{ address }} else {{ null }}`"));
+                                }
+                                let mut bf = BranchFinder(false);
+                                bf.visit_block(&i.then_branch);
+                                if bf.0 {
+                                    return Err(format!("{who}: `{v}` branches further"));
+                                }
+                                slot = Some(format!(".generated {lean} (some {lcond})"));
+                            }
+                            syn::Expr::Block(b) if cond.is_empty() => {
+                                let mut bf = BranchFinder(false);
+                                bf.visit_block(&b.block);
+                                if bf.0 {
+                                    return Err(format!("{who}: the address of the generated {kind} function is chosen under a condition"));
+                                }
+                                slot = Some(format!(".generated {lean} none"));
+                            }
+                            _ => {
+                                return Err(format!(
+                                    "{who}: `{v}` (generated {kind} function) has another shape than in the subset: `{}`",
+                                    norm(e).chars().take(120).collect::<String>()
+                                ))
+                            }
+                        }
+                    }
+                    slot.ok_or(format!("{who}: `{v}` is not the address of a generated clone / drop / eq function of `type_id`"))?
+                };
+                writes.push(slot);
+            }
+            syn::Stmt::Expr(syn::Expr::MethodCall(m), _) if matches!(m.method.to_string().as_str(), "push") => {}
+            other => return Err(format!("{who}: statement outside the subset in the vtable loop: `{}`", norm(other).chars().take(120).collect::<String>())),
+        }
+    }
+    let want = |n: &str, t: &str| -> Result<(), String> {
+        match locals.iter().find(|(x, _)| x == n) {
+            Some((_, e)) if norm(e) == t => Ok(()),
+            Some((_, e)) => Err(format!("{who}: `{n}` is `{}`, expected `{t}`", norm(e))),
+            None => Err(format!("{who}: no `let {n}`")),
+        }
+    };
+    want("type_id", "ty_ref.type_id()")?;
+    want("ty_layout", "self.layout_of(ty_ref).unwrap_or(Layout::of::<()>())")?;
+    if writes.len() != lean_fields.len() {
+        return Err(format!("{who}: {} vtable writes for {} fields of struct VTable", writes.len(), lean_fields.len()));
+    }
+    Ok(format!(
+        "/-- `struct VTable` (src/value/vtable.rs), fields in declaration order -/\ndef vtableFields : List VtField := [{}]\n\n/-- `Lowerer::call_runtime` (src/lir/lower.rs): what is written into the vtable of a type\n    parameter `ty_ref`, one pointer-sized field after the other -/\ndef vtableWrites : List VtSlot := [{}]\n\n",
+        lean_fields.join(", "),
+        writes.join(", ")
+    ))
 }
